@@ -413,6 +413,13 @@ def judge_endpoints(ops, rep, ctx, clauses):
                 if 'c19' in clauses and exact and x['kind'] != 'I':
                     fail(i, 'not-indexed', 'field (%s,%s) equals an addressable entry (index %d) but was emitted as kind %s' % (
                         hx(n)[:24], hx(v)[:24], addr.index((n, v)) + 1, x['kind']))
+                if 'c19' in clauses and x['kind'] == 'I' and isinstance(x.get('index'), int):
+                    # "sent as a single index *resolving to it*": the index must name this very field on a peer in step
+                    j_ = x['index']
+                    got_ = addr[j_ - 1] if 1 <= j_ <= len(addr) else None
+                    if got_ != (n, v):
+                        fail(i, 'index-resolves-elsewhere', 'field (%s,%s) was emitted as index %d, which a peer in step resolves to %s' % (
+                            hx(n)[:24], hx(v)[:24], j_, ('(%s,%s)' % (hx(got_[0])[:24], hx(got_[1])[:24])) if got_ else 'nothing (out of range)'))
                 if 'c15' in clauses and s:
                     if x['kind'] == 'I':
                         if not exact:
